@@ -105,6 +105,7 @@ def _unit(arg):
         full_sites = kw.pop('full_expand_sites', None)      # (unused here; see c04)
 
         def judge(x):
+            x.frozen_ns = list(x.cs.ns)   # the oracle may draw further choices; they are not explored
             ur.execs += 1
             ur.transitions += len(x.cs.ns)
             ur.max_points = max(ur.max_points, len(x.cs.ns))
@@ -122,14 +123,13 @@ def _unit(arg):
 
         base = pipeline.run_execution(config, policy, None, hooks=hooks, **kw)
         base_digest = exec_digest(base)
+        ns = list(base.cs.ns)
         if slice_idx == 0:
             judge(base)
             _stage_hist(base, ur.stage_points)
             if len(ur.samples) < 1:
                 ur.samples.append({'schedule': schedule_json(base), 'choice_points': len(base.cs.ns),
                                    'T0_head': (base.T0 or '')[:300], 'error': base.error})
-        ns = list(base.cs.ns)
-        stages_of = [base.cs.stage_of(i) for i in range(len(ns))]
 
         def allowed(x, pos):
             if stage_filter is None:
@@ -138,7 +138,7 @@ def _unit(arg):
 
         def expand(x, start, depth):
             """all single deviations of x at positions >= start; recurse to `bound`."""
-            xns = list(x.cs.ns)
+            xns = x.frozen_ns
             for pos in range(start, len(xns)):
                 if depth == 1 and pos % nslices != slice_idx:
                     continue
@@ -158,6 +158,7 @@ def _unit(arg):
             return True
 
         if bound >= 1:
+            base.frozen_ns = ns
             done = expand(base, 0, 1)
             ur.bound_done = bound if done else 0
         # end-of-life replay of the base schedule: state leaking between executions?
